@@ -423,11 +423,18 @@ impl WalWriter {
 #[cfg(feature = "verif-hooks")]
         crate::verif_hooks::crash_point("rotate:synced", &self.path);
 
-        // Rename to timestamped file
-        let timestamp = current_timestamp();
-        let rotated_path = self
+        // Rename to timestamped file; never reuse the name of an earlier rotation (two rotations
+        // within one second would otherwise overwrite the older log)
+        let mut timestamp = current_timestamp();
+        let mut rotated_path = self
             .path
             .with_file_name(format!("wal.{timestamp}.{WAL_EXTENSION}"));
+        while rotated_path.exists() {
+            timestamp += 1;
+            rotated_path = self
+                .path
+                .with_file_name(format!("wal.{timestamp}.{WAL_EXTENSION}"));
+        }
         std::fs::rename(&self.path, &rotated_path).map_err(|e| {
             P2PError::Storage(StorageError::Database(
                 format!("Failed to rotate WAL: {e}").into(),
@@ -1220,8 +1227,16 @@ impl<T: Serialize + for<'de> Deserialize<'de> + Clone + PartialEq + Send + Sync 
             }
         }
 
-        // Sort by timestamp (oldest first for replay)
-        wal_files.sort_by(|a, b| a.file_name().cmp(&b.file_name()));
+        // Sort by timestamp (oldest first for replay); the live log holds the newest entries
+        // and is replayed after every rotated log
+        let live_name = format!("state.{WAL_EXTENSION}");
+        wal_files.sort_by(|a, b| {
+            let a_live = a.file_name() == Some(std::ffi::OsStr::new(&live_name));
+            let b_live = b.file_name() == Some(std::ffi::OsStr::new(&live_name));
+            a_live
+                .cmp(&b_live)
+                .then_with(|| a.file_name().cmp(&b.file_name()))
+        });
 
         Ok(wal_files)
     }
